@@ -18,7 +18,8 @@ try:
     top = open(demo).read(4000)
     san = "-fsanitize=thread" if "fsanitize=thread" in top else ("-fsanitize=address" if "fsanitize=address" in top else "")
     extra = "-I%s/c-interface %s/c-interface/cpgm.cpp" % (wt, wt) if "cpgm.h" in open(demo).read() else ""
-    omp = "" if "thread" in san else "-fopenmp"   # TSan demos are built without OpenMP (uninstrumented libgomp is noise)
+    # TSan demos are built without OpenMP (uninstrumented libgomp is noise) unless they call the OpenMP API themselves
+    omp = "" if ("thread" in san and "omp.h" not in open(demo).read()) else "-fopenmp"
     if "-fno-access-control" in top: extra += " -fno-access-control"
     if "-DNDEBUG" in top: extra += " -DNDEBUG"
     def build_demo(tag):
